@@ -450,6 +450,8 @@ class Evaluator:
                 r = less if a < b else greater if a > b else equal
                 return ("some", r) if name == "partial_cmp" else r
             return ordering
+        if name == "clamp" and n == 3:
+            return lambda args, fn: args[1] if ok(args[0]) < ok(args[1]) else args[2] if ok(args[0]) > ok(args[2]) else args[0]
         if name in ("min", "max") and n == 2:
             return lambda args, fn: (args[0] if ok(args[0]) <= ok(args[1]) else args[1]) if name == "min" else (args[1] if ok(args[1]) >= ok(args[0]) else args[0])
         if name in ("Shl", "Shr") and n == 2:
@@ -619,6 +621,57 @@ class Evaluator:
             return guard(d0, lambda args, fn: weekday(args[0]))
         if name == "index" and n == 2:
             return guard(lambda a: isinstance(a[0], list) and isinstance(a[1], int) and 0 <= a[1] < len(a[0]), lambda args, fn: args[0][args[1]])
+        # iterators over finite sequences, as lists (pure pipelines: laziness does not matter)
+        def aslist(v, fn):
+            if isinstance(v, list):
+                return list(v)
+            if v is None:
+                return []
+            if isinstance(v, tuple) and v and v[0] == "some":
+                return [v[1]]
+            if isinstance(v, tuple) and v and v[0] == "enum" and v[1] == "Range" and set(v[2]) == {"start", "end"}:
+                return list(range(int(v[2]["start"]), int(v[2]["end"])))
+            if isinstance(v, tuple) and v and v[0] == "range" and isinstance(v[1], int) and isinstance(v[2], int):
+                return list(range(v[1], v[2] + 1))
+            raise Unmodelled("%s: %r is not a finite sequence" % (fn.id, v))
+        if full in ("::into_iter", "IntoIterator::into_iter", "Option::into_iter", "Option::iter", "Range::into_iter", "RangeInclusive::into_iter", "Vec::into_iter", "Vec::iter") and n == 1:
+            return lambda args, fn: aslist(args[0], fn)
+        if full.endswith("Iterator::rev") and n == 1:
+            return lambda args, fn: list(reversed(aslist(args[0], fn)))
+        if full.endswith("Iterator::chain") and n == 2:
+            return lambda args, fn: aslist(args[0], fn) + aslist(args[1], fn)
+        if full.endswith("Iterator::map") and n == 2:
+            return guard(lambda a: isclo(a[1]), lambda args, fn: [self.apply(args[1], [x], fn) for x in aslist(args[0], fn)])
+        if full.endswith("Iterator::filter") and n == 2:
+            return guard(lambda a: isclo(a[1]), lambda args, fn: [x for x in aslist(args[0], fn) if self.apply(args[1], [x], fn)])
+        if full.endswith("Iterator::filter_map") and n == 2:
+            def filter_map(args, fn):
+                out = []
+                for x in aslist(args[0], fn):
+                    r = self.apply(args[1], [x], fn)
+                    if r is not None:
+                        if not (isinstance(r, tuple) and r and r[0] == "some"):
+                            raise Unmodelled("%s: filter_map closure returned %r" % (fn.id, r))
+                        out.append(r[1])
+                return out
+            return guard(lambda a: isclo(a[1]), filter_map)
+        if full in ("::next", "Iterator::next", "IntoIter::next", "Chain::next", "Rev::next", "FilterMap::next", "Map::next") and n == 1:
+            # the first element of a sequence that was just built (a fresh iterator)
+            return lambda args, fn: (("some", aslist(args[0], fn)[0]) if aslist(args[0], fn) else None)
+        if full.endswith("Iterator::last") and n == 1:
+            return lambda args, fn: (("some", aslist(args[0], fn)[-1]) if aslist(args[0], fn) else None)
+        if full.endswith("Iterator::count") and n == 1:
+            return lambda args, fn: len(aslist(args[0], fn))
+        if full.endswith("Iterator::any") and n == 2:
+            return guard(lambda a: isclo(a[1]), lambda args, fn: any(bool(self.apply(args[1], [x], fn)) for x in aslist(args[0], fn)))
+        if full.endswith("Iterator::all") and n == 2:
+            return guard(lambda a: isclo(a[1]), lambda args, fn: all(bool(self.apply(args[1], [x], fn)) for x in aslist(args[0], fn)))
+        if full.endswith("Iterator::min") and n == 1:
+            return lambda args, fn: (("some", min(aslist(args[0], fn), key=ok)) if aslist(args[0], fn) else None)
+        if full.endswith("Iterator::max") and n == 1:
+            return lambda args, fn: (("some", max(aslist(args[0], fn), key=ok)) if aslist(args[0], fn) else None)
+        if full.endswith("Iterator::collect") and n == 1:
+            return lambda args, fn: aslist(args[0], fn)
         if name == "array":
             return lambda args, fn: list(args)
         if name == "tuple":
